@@ -3,6 +3,7 @@
    2   : applyPolicies on (spec, cached job version, request) -> action
    101 : lifecycle laws over an observed trace
    111/112/113/114 : counters-partition law on one observed step, per code path
+   115 : the decision of a Running job's sync (Completed / Failed / Pending / stay) on the written counters
    120 : stale request => sync, on the implementation's applyPolicies answer *)
 From Coq Require Import ZArith List Bool.
 From V Require Import Base.Codec C05.Model C05.JobCodec C05.Laws.
@@ -58,6 +59,8 @@ Definition entry (sel : Z) (toks : list Z) : list Z :=
            | Some (sp, r, fresh, pgv, b, a) => eBool (law_counters PathSyncPgPending sp r fresh pgv b a) | None => bad_input end
   | 114 => match run_dec dStepCase toks with
            | Some (sp, r, fresh, pgv, b, a) => eBool (law_counters PathSyncDiverged sp r fresh pgv b a) | None => bad_input end
+  | 115 => match run_dec dStepCase toks with
+           | Some (sp, r, fresh, pgv, b, a) => eBool (law_running sp r fresh b a) | None => bad_input end
   | 120 => match run_dec (let* v := dZ in let* rf := dReq in let* a := dAction in ret (v, fst rf, a)) toks with
            | Some (v, r, a) => eBool (law_stale v r a) | None => bad_input end
   | _ => bad_input
